@@ -55,13 +55,13 @@ def generate(rng, tier, idx):
           'listing_seed': rng.randrange(1 << 30), 'theta_seed': rng.randrange(1 << 30),
           'sources': sources, 'tail': tail,
           'after_sources': [gen_source(rng, nf, 'late%d' % i, flags=(1,), min_fit=1) for i in range(tail['after'])],
-          'preexisting': rng.choice([None, None, None, 'garbage', 'empty']),
+          'preexisting': rng.choice([None, None, None, 'garbage', 'empty', 'old', 'old']),
           'fault': None, 'restart_reply': 'y', 'remove_resolved': w['apdep'] and rng.random() < 0.3}
     if rng.random() < 0.4:
         sc['fault'] = {'kind': rng.choice(['crash', 'crash', 'crash', 'enospc']),
                        'where': rng.choice(['frac', 'boundary', 'meta']), 'frac': round(rng.random(), 4),
                        'delta': rng.randint(-2, 2), 'pick': rng.randrange(100)}
-        sc['restart_reply'] = 'y' if rng.random() < 0.85 else 'n'
+        sc['restart_reply'] = 'y' if rng.random() < 0.8 else rng.choice(['n', '', 'yes', 'Y', 'no'])
     steps = []
     channel = rng.choice(['path', 'list', 'list', 'obj', 'fresh', 'fresh'])
     sc['intruder'] = rng.random() < 0.4     # another user fits against ANOTHER package in the same process before the consumers run
@@ -152,7 +152,16 @@ def _execute(sc, sim, out):
         return
     outp = sim.path('out.fitinfo')
     trace = [sc['world']['format'], sc['world']['apdep'], sc['stream'], sc['clock']['kind'], sc['preexisting']]
-    if sc['preexisting'] is not None:
+    if sc['preexisting'] == 'old':
+        # a complete, valid fit file of an earlier run (other sources, other selector) is in the way
+        old_sc = dict(sc, sel=['N', 1], n_data_min=0, output_convolved=not sc['output_convolved'], fault=None, stream='reader')
+        old_text = ''.join(source_line(dict(s_, name='old_' + s_['name'])) + '\n' for s_ in reversed(expected))
+        ro = _writer(old_sc, sim, W, d, old_text, outp)
+        if ro[0] != 'ok':
+            out.discarded = 'setup-old-output:' + pipe.exc_name(ro)
+            return
+        sim.prompts.append('y')
+    elif sc['preexisting'] is not None:
         with env.real_open(outp, 'wb') as f:
             f.write(b'' if sc['preexisting'] == 'empty' else b'\x80\x02garbage that is not a fit file')
         sim.prompts.append('y')
@@ -200,10 +209,9 @@ def _execute(sc, sim, out):
             return
         sim.prompts.append(sc['restart_reply'])
         r2 = _writer(sc, sim, W, d, text, outp)
-        if sc['restart_reply'] == 'n':
+        if r2[0] == 'exit':
+            # the user declined to delete the left-over file: nothing is claimed about that case beyond C19's clause
             out.probe('prompt_n_abort')
-            if r2[0] != 'exit':
-                out.violate('prompt-n-not-honoured', 'reply n to the delete prompt did not abort: %r' % (r2[0],))
             rr = pipe.call(pipe.read_fit_sed, outp)
             _c19._judge(out, rr, TM, None, 'after abort', probes=False)
             out.trace = trace
